@@ -2,7 +2,7 @@ SPEC = dict(
     props_file="Props/C21.v",
     level="proof",
     observers=[dict(cmd="obs_replica", imports=["Model.Replica"], case_type="Replica.case", check="Replica.check_case",
-                    n={"quick": 700, "thorough": 15000}, shard=100)],
+                    n={"quick": 500, "thorough": 15000}, shard=100)],
     rule="SendToReplicas predicates (reads only / all / none / by key hash / absent), ReplicaOnly, node selectors returning -1 … 9 "
          "(inside and outside the candidate list), EnableReplicaAZInfo on/off, 0-3 replicas, single commands and batches of 1-4 GET/SET, in "
          "standalone-with-replicas (incl. EnableRedirect without replicas), sentinel (1-2 replicas) and cluster mode (1-3 shards with 0-2 "
